@@ -63,7 +63,56 @@ pub fn lib_t() -> Vec<PkgSpec> {
     ]
 }
 
+pub const HAND_PROVIDER: &str = r#"(component
+      (core module $m (import "e" "mem" (memory 1)) (func (export "f")))
+      (export "m" (core module $m))
+      (component $c (import "x" (func)) (export "y" (func 0)))
+      (export "c" (component $c))
+      (core module $n (func (export "g")))
+      (core instance $ni (instantiate $n))
+      (func $g (canon lift (core func $ni "g")))
+      (instance $inner (export "g" (func $g)))
+      (instance $outer (export "inner" (instance $inner)) (export "g" (func $g)))
+      (export "nest" (instance $outer))
+      (type $t (record (field "a" u32)))
+      (export $t2 "t" (type $t))
+    )"#;
+
+pub const HAND_CONSUMER: &str = r#"(component
+      (import "m" (core module (import "e" "mem" (memory 1)) (export "f" (func))))
+      (import "c" (component (import "x" (func)) (export "y" (func))))
+      (import "nest" (instance (export "inner" (instance (export "g" (func)))) (export "g" (func))))
+      (export "again" (instance 0))
+    )"#;
+
+pub const HAND_RESTYPE: &str = r#"(component
+      (import "r" (type $r (sub resource)))
+      (import "mk" (func (result (own $r))))
+      (type $u u32)
+      (import "t" (type $t (eq $u)))
+      (export "mk2" (func 0))
+    )"#;
+
+pub const HAND_VALUE: &str = r#"(component
+      (import "v" (value u32))
+      (export "v2" (value 0))
+    )"#;
+
+pub fn hand_wats() -> Vec<(&'static str, &'static str)> {
+    vec![("h:provider", HAND_PROVIDER), ("h:consumer", HAND_CONSUMER), ("h:restype", HAND_RESTYPE), ("h:value", HAND_VALUE)]
+}
+
 pub fn lib_hand() -> Vec<PkgSpec> {
+    vec![
+        PkgSpec::from_component("h:provider", None, wat(HAND_PROVIDER).unwrap()),
+        PkgSpec::from_component("h:consumer", Some("0.2.0"), wat(HAND_CONSUMER).unwrap()),
+        PkgSpec::from_component("h:restype", None, wat(HAND_RESTYPE).unwrap()),
+        PkgSpec::from_component("h:value", None, wat(HAND_VALUE).unwrap()),
+    ]
+}
+
+#[allow(dead_code)]
+fn lib_hand_old() -> Vec<PkgSpec> {
     let provider = r#"(component
       (core module $m (import "e" "mem" (memory 1)) (func (export "f")))
       (export "m" (core module $m))
@@ -163,7 +212,7 @@ pub fn universe_from(prop: &'static str, pkgs: Vec<PkgSpec>, import_from: &[(usi
             }
         }
     }
-    u.max_nodes = 5;
+    u.max_nodes = tier.pick(4, 5);
     u.max_pkgs = 8;
     u.ops = ["Instantiate", "Alias", "Import", "SetArg", "UnsetArg", "Export", "Remove"].into_iter().collect();
     u
@@ -220,6 +269,7 @@ pub fn universes(tier: Tier) -> Vec<(&'static str, Universe, Vec<Vec<Op>>)> {
         u.ops.remove("SetName");
         let seeds = vec![vec![Op::Register(0), Op::Register(1), Op::Register(2)]];
         u.max_pkgs = 3;
+        u.max_nodes = tier.pick(4, 5);
         out.push(("LibFI", u, seeds));
     }
     out
@@ -243,6 +293,16 @@ pub fn run(args: &[String]) {
     if let Some(case) = ctx.replay_case().cloned() {
         let tier = if case["tier"] == "thorough" { Tier::Thorough } else { Tier::Quick };
         let lib = case["library"].as_str().unwrap_or("LibT");
+        if lib == "LibWit" {
+            let bytes = component_from_wit(&[("t.wit", case["wit"].as_str().unwrap())], case["world"].as_str().unwrap()).unwrap();
+            let mut u = Universe::build("C01", vec![PkgSpec::from_component("t:pkg", None, bytes)]);
+            u.max_pkgs = 1;
+            let st = rebuild(&u, &[Op::Register(0), Op::Instantiate(0)]).expect("single instantiation");
+            for (fp, what) in check_encode(&u, &st, "single-instantiation", None).0 {
+                ctx.violation(fp.replacen("C01/", "C01/LibWit/", 1), what, case.clone());
+            }
+            ctx.finish(Map::new(), vec![]);
+        }
         let (_, mut u, _) = universes(tier).into_iter().find(|(n, _, _)| *n == lib).unwrap_or_else(|| mc_core::machinery_error("unknown library"));
         u.isolated_imports.clear();
         let ops: Vec<Op> = serde_json::from_value(case["ops"].clone()).unwrap_or_else(|e| mc_core::machinery_error(&format!("bad ops: {e}")));
@@ -258,7 +318,11 @@ pub fn run(args: &[String]) {
     let mut per_lib: Vec<Value> = Vec::new();
     let mut cov_u = None;
     for (name, u, seeds) in universes(tier) {
+        let t0 = std::time::Instant::now();
+        // LibHand has the widest alphabet (every nested export name): one level shallower
+        let depth = if name == "LibHand" { depth - 1 } else { depth };
         let (stats, found) = bfs(&u, &seeds, depth, Some(&wiring_and_interface_check), tier.pick(2_000_000, 30_000_000), None);
+        eprintln!("C01 {name}: {} states, {} transitions, {:.1}s", stats.states, stats.transitions, t0.elapsed().as_secs_f64());
         for f in found {
             let mut case = f.case;
             case["tier"] = json!(tier.as_str());
@@ -287,6 +351,48 @@ pub fn run(args: &[String]) {
             total.samples.extend(stats.samples.into_iter().take(1));
         }
         cov_u = Some(u);
+    }
+    // LibWit: every world of the bounded WIT enumeration, instantiated once with every
+    // import left implicit (a single-node composition per generated component)
+    {
+        use rayon::prelude::*;
+        let cases = mc_core::witgen::enumerate(tier);
+        let jobs: Vec<(usize, String)> = cases.iter().enumerate().flat_map(|(i, c)| c.worlds.iter().map(move |w| (i, w.clone()))).collect();
+        let outs: Vec<(usize, String, Vec<Viol>, Vec<&'static str>)> = jobs
+            .par_iter()
+            .filter_map(|(i, w)| {
+                let bytes = component_from_wit(&[("t.wit", &cases[*i].text)], w).ok()?;
+                let r = mc_core::catch(|| {
+                    let mut u = Universe::build("C01", vec![PkgSpec::from_component("t:pkg", None, bytes)]);
+                    u.max_pkgs = 1;
+                    let st = rebuild(&u, &[Op::Register(0), Op::Instantiate(0)]).expect("single instantiation");
+                    check_encode(&u, &st, "single-instantiation", None)
+                });
+                match r {
+                    Ok((v, classes)) => Some((*i, w.clone(), v, classes)),
+                    Err(p) => Some((*i, w.clone(), vec![(format!("C01/harness-or-decode-panic/{}", mc_core::panic_site(&p)), p)], vec![])),
+                }
+            })
+            .collect();
+        let mut n = 0u64;
+        let mut classes_count: std::collections::BTreeMap<&'static str, u64> = Default::default();
+        for (i, w, v, classes) in outs {
+            n += 1;
+            for c in classes {
+                *classes_count.entry(c).or_default() += 1;
+                *total.encode_classes.entry(c).or_default() += 1;
+            }
+            for (fp, what) in v {
+                ctx.violation(
+                    fp.replacen("C01/", "C01/LibWit/", 1),
+                    format!("{} world {w}: {what}", cases[i].id),
+                    json!({"library": "LibWit", "wit": cases[i].text, "world": w}),
+                );
+            }
+        }
+        total.states += n;
+        total.transitions += n;
+        per_lib.push(json!({"library": "LibWit", "states": n, "encode_outcomes": classes_count, "packages": "every world of mc-core witgen"}));
     }
     // cases that abort the process are run in supervised subprocesses
     let mut isolated = 0;
